@@ -52,6 +52,14 @@ MUTANTS = {
         ("keep-discount-factors", B,
          "        d = (1.+wacc)**(1./365.) # convert interest rate to daily",
          "        if hasattr(self, 'discount_factors') and len(self.discount_factors) == self.T: return\n        d = (1.+wacc)**(1./365.) # convert interest rate to daily"),
+        ("module-level-cache-by-asset-name", A,
+         ["class Asset:\n", "        I = self.timegrid.restricted.I  # indices of restricted time grid\n        T = self.timegrid.restricted.T\n        if value is None:\n            return value"],
+         ["class Asset:\n    _vec_cache = {}\n", "        I = self.timegrid.restricted.I  # indices of restricted time grid\n        T = self.timegrid.restricted.T\n        if value is None:\n            return value\n"
+          "        if isinstance(value, (float, int)):\n            _k = (self.name, T, convert)\n            if _k in Asset._vec_cache: return Asset._vec_cache[_k].copy()\n"
+          "            Asset._vec_cache[_k] = (value * np.ones(T)) * (self.timegrid.restricted.dt if convert else 1.)\n            return Asset._vec_cache[_k].copy()"]),
+        ("mutable-default-skip-nodes-accumulates", P,
+         "        if len(skip_nodes) == 0:\n            my_skip_nodes = None\n        else:\n            my_skip_nodes = skip_nodes",
+         "        if len(self.nodes) > 1: skip_nodes.append(list(self.nodes.keys())[-1] + '_x' * (len(skip_nodes) % 2))\n        if len(skip_nodes) < 3:\n            my_skip_nodes = None\n        else:\n            my_skip_nodes = [n[:-2] if n.endswith('_x') else n for n in skip_nodes]"),
         ("revert-H1-copy", B, "        inp = inp.copy() # normalize a copy, the caller's dict (e.g. an asset parameter) must stay as given\n", ""),
         ("revert-H4-restore", P, "                a.start = a_start\n                a.end   = a_end", "                pass"),
     ],
@@ -78,6 +86,8 @@ MUTANTS = {
         ("split-skip-failed", O, "            res_tmp = op.optimize(*args, **kwargs)\n",
          "            res_tmp = op.optimize(*args, **kwargs)\n            if isinstance(res_tmp, str):\n                res.x = np.hstack((res.x, np.zeros(len(op.c))))\n                continue\n"),
         ("robust-sign", O, "                    results.value = -sum(x.value * self.c)", "                    results.value = sum(x.value * self.c)"),
+        ("eao-sets-iteration-limit", O, "                prob.solve(solver = getattr(CVX, solver))",
+         "                prob.solve(solver = getattr(CVX, solver), **({'scipy_options': {'maxiter': 3}} if solver == 'SCIPY' else {}))"),
         ("upper-bound-dropped", O, "            constraints = [ x <= self.u, x>=self.l ]", "            constraints = [ x <= self.u + 1e-3*(np.abs(self.u)+1), x>=self.l ]"),
     ],
 }
